@@ -29,10 +29,11 @@ def canon(r):
 
 def main():
     spec = json.load(sys.stdin)
-    try:
-        resource.setrlimit(resource.RLIMIT_AS, (6 << 30, 6 << 30))
-    except Exception:
-        pass
+    if spec.get("rlimit_as", True) and not os.environ.get("VERIF_NO_RLIMIT"):
+        try:
+            resource.setrlimit(resource.RLIMIT_AS, (6 << 30, 6 << 30))
+        except Exception:
+            pass
     sys.path.insert(0, os.getcwd())
     ns = {"__name__": "__worker__"}
     if spec.get("setup"):
